@@ -54,7 +54,7 @@ PROPS = {
         "assumptions": [RAYON, CELL],
     },
     "C02": {
-        "statement": "Scenario.C02_dependencies: D A precedes F B in every trace whenever B was registered with A among its dependencies",
+        "statement": "Scenario.C02_dependencies: D A precedes F B in every trace whenever B was registered with A among its dependencies; C02_transitive; C02_names_never_repointed(_run): a name that resolves to an id keeps resolving to it whatever is registered later (unnamed systems, placeholder spellings, rejected registrations)",
         "engines": [plan("deps,plan,batch,funnel"), trace("deps,base", quick=40, **{"long-holds": True}), plan_nopar("deps,plan"), plan_release("deps,plan,barriers")],
         "aspects": TRACE,
         "assumptions": [RAYON],
@@ -101,7 +101,7 @@ PROPS = {
         "assumptions": [RAYON, CELL, "the harness systems' update function (sys.rs::mix / Model/Effect.lean::mix) stands for 'behaviour that depends only on own state and declared resources'"],
     },
     "C07": {
-        "statement": "C07_batch_reads/_writes (the batch accessor is exactly controller ∪ inner), C07_conflict_lifts, C07_nested_wf",
+        "statement": "C07_batch_reads/_writes (the batch accessor is exactly controller ∪ inner), C07_conflict_lifts, C07_nested_wf, C07_nested_isolation/_exactly_once/_order/_tl_last/_inner_order, C07_inner_dispatches_in_order (everything of inner dispatch i has dropped its data before anything of inner dispatch j > i fetches)",
         "engines": [plan("batch,plan,funnel"), trace("batch,kf1", quick=80), plan_nopar("batch"),
                     # what the controller and the inner systems declare is what the union is made of
                     {"engine": "sysdata", "args": {}, "quick": {"exhaust-upto": 6, "samples": 12, "pre-samples": 6}, "thorough": {"exhaust-upto": 8, "samples": 100, "pre-samples": 30}}],
